@@ -166,3 +166,54 @@ func VP_T_append() {
 	}
 	vpAssert(len(u) <= n, "filter in place")
 }
+
+// Exploration completeness: branches that cannot be merged (loops with a symbolic trip count,
+// early returns out of loops) must be forked and BOTH sides explored whichever side the current
+// model happens to sit on; every cover below is reachable, and the path counts are checked by
+// the driver through them.
+func vpFirstAbove(c []int, lim int) int {
+	for i, v := range c {
+		if v > lim {
+			return i
+		}
+	}
+	return -1
+}
+
+func VP_T_forks() {
+	m := vpIntRange("m", 0, 3)
+	cnt := 0
+	for i := 0; i < m; i++ {
+		cnt += 2
+	}
+	vpAssert(cnt == 2*m, "loop with symbolic trip count")
+	c := []int{vpIntRange("x0", 0, 9), vpIntRange("x1", 0, 9), vpIntRange("x2", 0, 9)}
+	k := vpFirstAbove(c, 4)
+	vpAssert(k == -1 || c[k] > 4, "index of the first element above the limit")
+	for j := 0; j < 3; j++ {
+		if k == -1 || j < k {
+			vpAssert(c[j] <= 4, "everything before it is at or below the limit")
+		}
+	}
+	// a down-counting loop: the current model sits on the 'stay' side first
+	d := vpIntRange("d", 0, 2)
+	steps := 0
+	for d > 0 {
+		d--
+		steps++
+	}
+	vpAssert(d == 0, "loop ran to its end")
+	vpCover("m=0", m == 0)
+	vpCover("m=1", m == 1)
+	vpCover("m=2", m == 2)
+	vpCover("m=3", m == 3)
+	vpCover("k=-1", k == -1)
+	vpCover("k=0", k == 0)
+	vpCover("k=1", k == 1)
+	vpCover("k=2", k == 2)
+	vpCover("steps=0", steps == 0)
+	vpCover("steps=1", steps == 1)
+	vpCover("steps=2", steps == 2)
+	vpCover("m=3,k=2,steps=2", m == 3 && k == 2 && steps == 2)
+	vpCover("m=0,k=-1,steps=0", m == 0 && k == -1 && steps == 0)
+}
